@@ -319,6 +319,7 @@ func (s *StatusVars) CatalogNZ(name string) *StatusVars {
 	s.b = append(append(s.b, 6, byte(len(name))), name...)
 	return s
 }
+
 // CatalogOld is Q_CATALOG (code 2), the 5.0.0-5.0.3 form: length, name, NUL.
 func (s *StatusVars) CatalogOld(name string) *StatusVars {
 	s.b = append(append(append(s.b, 2, byte(len(name))), name...), 0)
@@ -381,7 +382,7 @@ func (s *StatusVars) DefaultCollationUTF8MB4(v uint16) *StatusVars {
 	s.b = append(append(s.b, 18), le16(v)...)
 	return s
 }
-func (s *StatusVars) SQLRequirePK(v byte) *StatusVars         { s.b = append(s.b, 19, v); return s }
+func (s *StatusVars) SQLRequirePK(v byte) *StatusVars           { s.b = append(s.b, 19, v); return s }
 func (s *StatusVars) DefaultTableEncryption(v byte) *StatusVars { s.b = append(s.b, 20, v); return s }
 
 // MetaBytes serialises one column's metadata as it appears in a table map.
